@@ -12,6 +12,8 @@ import CkbVerif.Lemmas.IndexerHistReplayT
 import CkbVerif.Lemmas.IndexerCellOrder
 import CkbVerif.Lemmas.IndexerWF
 import CkbVerif.Lemmas.IndexerFollow
+import CkbVerif.Lemmas.RichIndexer
+import CkbVerif.Lemmas.RichCells
 
 /-!
 # C18 — the indexer's answers equal filtering the chain's live cells and transactions
@@ -984,5 +986,168 @@ theorem chain_checks_sound (keep interval : Nat) (blocks : List Block)
 
 example : chainCheckedB 1 1 [] exChainTx = true := by decide
 
+
+/-! ## Round 4: the SQL rich-indexer (`util/rich-indexer`), relational model `Model/RichIndexer.lean`
+
+The database is five relations (block, ckb_transaction, output, input, script) with foreign ids;
+`Rich.appendBlock` / `Rich.rollback` follow `indexer/{mod,insert,remove}.rs`. -/
+section RichIndexer
+open CkbVerif.Rich
+
+/-- two blocks for the examples: block 0 creates P (lock A = 1.[1], type T = 2.[5]); block 1 spends
+the cellbase of block 0 AFTER an input the index does not know, creates Q (lock B = 3.[9], SAME type
+T) and a cell it spends again in the same block -/
+def rb0 : Block := ⟨0, 1, [⟨1, [⟨0, 4294967295⟩], [⟨1000, ⟨1, [1]⟩, none, []⟩]⟩,
+  ⟨2, [], [⟨500, ⟨1, [1]⟩, some ⟨2, [5]⟩, [7]⟩]⟩]⟩
+def rb1 : Block := ⟨1, 2, [⟨3, [⟨0, 4294967295⟩], [⟨1000, ⟨1, [1]⟩, none, []⟩]⟩,
+  ⟨4, [⟨99, 0⟩, ⟨1, 0⟩], [⟨500, ⟨3, [9]⟩, some ⟨2, [5]⟩, []⟩, ⟨5, ⟨1, [1]⟩, none, [7, 8]⟩]⟩,
+  ⟨5, [⟨4, 1⟩], []⟩]⟩
+
+/-- **rollback removes exactly one layer.** If `d` is `db` plus the rows of one block (`Layer`: the
+block row; transaction rows of that block with ids new to `db`; output rows of those transactions;
+input rows consumed by them; the older outputs they reference were unspent and are now marked spent;
+script rows referenced by an output of the block and by no older output; every older script row is
+referenced by an older output as lock OR type script), then `rollback d = db`: EVERY relation is
+restored, row ids and `is_spent` flags included — in particular the script-row garbage collection
+deletes exactly the script rows the block added and keeps every older one. -/
+theorem rich_rollback_layer {db d : DB} {B : RBlock} {nt : List RTx} {no : List ROut} {ni : List RIn}
+    {ns : List RScript} {M : List Nat} (L : Layer db B nt no ni ns M d) : Rich.rollback d = db :=
+  rollback_layer L
+
+/-- the hypothesis is satisfiable: `appendBlock` of `rb1` (unindexed input first, shared type script,
+same-block spend) on top of the database after `rb0` is a layer -/
+example : layerCheckB (appendBlock {} rb0) (appendBlock (appendBlock {} rb0) rb1) = true := by decide
+
+/-- **rollback ∘ append = id on the whole database** (every relation the queries read, hence every
+answer and the tip), for every database and block for which the appended database is a layer —
+`layerCheckB`, the decidable form of `Layer` with the witnesses read off the two databases.
+PARTIAL: that `appendBlock db b` IS a layer for every well-formed block (fresh distinct transaction
+ids, inputs only to earlier transactions, no double spend) is not proved; the driver evaluates
+`layerCheckB` on every appended block of every generated history (bit `l` of the `wf` op). -/
+theorem rich_rollback_append_partial (db : DB) (b : Block)
+    (h : layerCheckB db (appendBlock db b) = true) :
+    Rich.rollback (appendBlock db b) = db ∧ Rich.tip (Rich.rollback (appendBlock db b)) = Rich.tip db := by
+  have := rollback_of_layerCheck h
+  exact ⟨this, by rw [this]⟩
+
+example : Rich.rollback (appendBlock (appendBlock {} rb0) rb1) = appendBlock {} rb0 :=
+  (rich_rollback_append_partial _ _ (by decide)).1
+
+/-- **script-row garbage collection**: `rollback_block` deletes a script id iff an output row it
+removes referenced it (as lock or type) and NO remaining output row references it as lock OR as type
+script. -/
+theorem rich_script_gc_iff (removed remaining : List ROut) (sid : Nat) :
+    sid ∈ scriptsToRemove removed remaining ↔
+      (∃ o ∈ removed, o.lockId = some sid ∨ o.typeId = some sid) ∧
+      ¬ ∃ o ∈ remaining, o.lockId = some sid ∨ o.typeId = some sid := by
+  rw [mem_scriptsToRemove]
+  constructor
+  · rintro ⟨h1, h2⟩
+    refine ⟨h1, fun h => ?_⟩
+    rw [(scriptReferenced_iff _ _).mpr h] at h2
+    cases h2
+  · rintro ⟨h1, h2⟩
+    exact ⟨h1, Bool.eq_false_iff.mpr fun h => h2 ((scriptReferenced_iff _ _).mp h)⟩
+
+example : scriptsToRemove [⟨3, 2, 0, 5, some 1, some 2, [], 0⟩] [⟨1, 1, 0, 5, some 4, some 2, [], 0⟩] = [1] := by
+  decide
+
+/-- the seeded change m3 (`script_exists_in_output` testing `lock_script_id` in both queries) breaks
+the identity: with `rollbackLockOnly` the script row of T — referenced by the surviving cell P only as
+its TYPE script — is deleted, so P's `type_script_id` dangles and a search by type T finds nothing. -/
+theorem rich_gc_lock_only_witness :
+    let db := appendBlock {} rb0
+    layerCheckB db (appendBlock db rb1) = true ∧ rollbackLockOnly (appendBlock db rb1) ≠ db ∧
+      (cellRows db false .exact ⟨2, [5]⟩ {}).length = 1 ∧
+      (cellRows (rollbackLockOnly (appendBlock db rb1)) false .exact ⟨2, [5]⟩ {}).length = 0 := by
+  decide
+
+/-- the defect repaired by 8589800 (`break` at the first input whose previous output is not in the
+index): with the old loop (`appendBlockPrefix`) the cell 1.0, spent by the SECOND input of tx 4, stays
+live; with the repaired loop it is dead. -/
+theorem rich_break_witness_prefix :
+    let db := appendBlock {} rb0
+    liveCell db ⟨1, 0⟩ ≠ none ∧ liveCell (appendBlock db rb1) ⟨1, 0⟩ = none ∧
+      liveCell (appendBlockPrefix db rb1) ⟨1, 0⟩ ≠ none := by
+  decide
+
+/-- NEW deviation of the code (prefix mode, `get_binary_upper_boundary` of an all-0xff string): the
+searched args `ff` are a prefix of the cell's args `ff ff`, but the range `[ff, ff ff)` excludes them —
+the live cell is not returned. -/
+theorem rich_prefix_allff_witness :
+    isPrefix [255] [255, 255] = true ∧ inPrefixRange [255] [255, 255] = false ∧
+    (let db := appendBlock {} ⟨0, 1, [⟨1, [⟨0, 4294967295⟩], [⟨100, ⟨1, [255, 255]⟩, none, []⟩]⟩]⟩
+     liveCell db ⟨1, 0⟩ ≠ none ∧ cellRows db true .pre ⟨1, [255]⟩ {} = []) := by
+  decide
+
+/-- NEW deviation of the code (ungrouped `get_transactions` cursor): the offset of the cursor counts
+only the rows of the last transaction INSIDE the current page; with limit 1 and a transaction with
+two matching cells, the third call repeats the second page — the walk never reaches an empty page
+and never leaves that transaction. -/
+theorem rich_txs_cursor_cycle_witness :
+    let db := appendBlock (appendBlock {} rb0) rb1
+    let p1 := getTxs db true .exact ⟨1, [1]⟩ {} false 1 (some (4, 1))
+    let p2 := getTxs db true .exact ⟨1, [1]⟩ {} false 1 (some p1.2)
+    p1.1 ≠ [] ∧ p2.1 = p1.1 ∧ p2.2 = p1.2 := by
+  decide
+
+/-- `get_cells_capacity` answers `None` (SUM is NULL) for a search without a matching cell even
+though the index has a tip — the key-value indexer answers `Some(0, tip)` -/
+theorem rich_capacity_none_witness :
+    let db := appendBlock {} rb0
+    Rich.tip db = some (0, 1) ∧ getCellsCapacity db true .exact ⟨7, []⟩ {} = none ∧
+      getCellsCapacity db false .exact ⟨2, [5]⟩ {} = some 500 := by
+  decide
+
+/-- **`get_cells` of the rich-indexer = filter over the live view of the relations** (ANY search mode —
+exact, prefix range, partial — any filter, lock or type search, any database with unique transaction
+hashes / ids, unique (tx_id, output_index) and resolvable lock ids — `KeysOK`, decidable):
+(1) every answer row is the live cell at its out-point (unspent output row joined with its
+transaction, block and script rows) with exactly the reported block number, tx index, capacity,
+scripts and data, and its searched-family script matches; (2) every live cell whose searched-family
+script matches and which passes the filters (read on the cell: `cellPassesR`) is answered.
+Answers are in `output.id` order (`cellRows` is a `filterMap` over the output relation).
+PARTIAL: `KeysOK` of every reachable database and `liveCell = replayLive` (the replayed chain's live
+set, the specification the key-value model is proved to refine) are not proved — the dump and the
+answers are compared with the independent chain replay on every generated history. -/
+theorem rich_get_cells_eq_filter_partial {db : DB} (ok : KeysOK db) (ls : Bool) (m : Mode) (q : Script)
+    (f : Filter) :
+    (∀ a ∈ cellRows db ls m q f, liveCell db a.op = some a.cell ∧
+      (if ls then scriptMatch m q a.cell.out.lock = true
+       else ∃ t, a.cell.out.type = some t ∧ scriptMatch m q t = true)) ∧
+    (∀ (op : OutPoint) (c : Cell), liveCell db op = some c →
+      (if ls then scriptMatch m q c.out.lock = true else ∃ t, c.out.type = some t ∧ scriptMatch m q t = true) →
+      cellPassesR f ls c = true → ∃ a ∈ cellRows db ls m q f, a.op = op ∧ a.cell = c) :=
+  ⟨fun a ha => cellRows_sound ok ls m q f a ha, fun op c hl hm hf => cellRows_complete ok ls m q f op c hl hm hf⟩
+
+/-- not vacuous: the database after `rb0`, `rb1` has unique keys, and a type search answers P and Q -/
+example : KeysOK (appendBlock (appendBlock {} rb0) rb1) ∧
+    (cellRows (appendBlock (appendBlock {} rb0) rb1) false .exact ⟨2, [5]⟩ {}).map (·.op) = [⟨2, 0⟩, ⟨4, 0⟩] := by
+  decide
+
+/-- sanity instance (one concrete chain, kernel evaluation): the live view of the relational model,
+the OutPoint rows of the key-value model and the replay specification agree on every out-point of
+the chain `rb0`, `rb1` (tx 4 has an input the indexes do not know before one they know) -/
+theorem rich_kv_agree_instance :
+    [(⟨1, 0⟩ : OutPoint), ⟨2, 0⟩, ⟨3, 0⟩, ⟨4, 0⟩, ⟨4, 1⟩, ⟨99, 0⟩].all (fun op =>
+      (liveCell (appendBlock (appendBlock {} rb0) rb1) op).map Val.cell =
+          get (appendCore (appendCore [] rb0) rb1) (.outPoint op) &&
+        liveCell (appendBlock (appendBlock {} rb0) rb1) op = replayLive [rb0, rb1] op) = true := by
+  decide +kernel
+
+/-- **ORDER of the rich-indexer's `get_cells`**: when the output rows are in ascending id order (new
+rows get `max(id)+1` and are appended), the unlimited ascending answer is STRICTLY ascending in the
+cursor `output.id` — the order in which the chain created the cells; `Desc` is its reverse and a
+cursor `after` keeps the rows strictly beyond it (`getCells`). -/
+theorem rich_get_cells_order (db : DB) (ls : Bool) (m : Mode) (q : Script) (f : Filter)
+    (h : (db.outs.map (·.id)).Pairwise (· < ·)) :
+    ((cellRows db ls m q f).map (·.cur)).Pairwise (· < ·) :=
+  cellRows_sorted ls m q f db.outs h
+
+example : ((appendBlock (appendBlock {} rb0) rb1).outs.map (·.id)).Pairwise (· < ·) ∧
+    (cellRows (appendBlock (appendBlock {} rb0) rb1) true .pre ⟨1, []⟩ {}).map (·.cur) = [2, 3] := by
+  decide
+
+end RichIndexer
 
 end CkbVerif.C18
